@@ -587,6 +587,22 @@ Theorem stop_is_current cap s t th :
   t_stop th = latest s (t_pub th).
 Proof. intros R H S. pose proof (invC_reach _ _ R) as C. destruct_C C. eapply Cstop; eauto. Qed.
 
+(* An announcement the receiver's allow filter rejects is not an event of this system at
+   all: whatever the variant and the state, it is enabled and changes nothing (in
+   particular neither lastRecv, the "last announced head" of quiescent_latest, nor the
+   receiver's duplicate filter: a later announcement of the same head that passes the
+   filter is an ordinary Recv).  That the real receiver behaves so is what the
+   allow-filter schedules of harness/cmd/c08 (and C09's own check) test. *)
+Theorem rejected_announcements_are_noops v cap s p c :
+  stepf v cap s (AnnRejected p c) = Some s.
+Proof. reflexivity. Qed.
+
+Corollary rejected_announcements_keep_reachability v cap s p c :
+  reach v cap s -> forall s', stepf v cap s (AnnRejected p c) = Some s' -> s' = s /\ reach v cap s'.
+Proof.
+  intros R s' H. rewrite rejected_announcements_are_noops in H. inversion H; subst. auto.
+Qed.
+
 (* ------------------------------------------------------------------ *)
 (* Witnesses: the code as found (v0) violates the statements; the       *)
 (* repaired code still re-reports after a stale announcement.           *)
